@@ -23,7 +23,7 @@ ASSUMPTIONS = simnet.ASSUMPTIONS + [
 ]
 
 ENDINGS = ("reconnect-then-close", "reply-fails-then-reconnect", "close0", "close2", "close-reason", "eof", "reset", "proto", "badutf8", "pingtimeout", "pingtimeout-chatty", "refused", "rejected",
-           "close-in-open", "close-in-message", "close-in-ping", "close-in-data", "kbd-in-message")
+           "close-in-open", "close-in-message", "close-in-ping", "close-in-data", "kbd-in-message", "kbd-in-close")
 
 
 def _traffic(n, tag=""):
@@ -101,6 +101,13 @@ def _spec_for(ending, ntraffic, tag=""):
         exp_err = False
         # the server answers the client's close frame
         spec["on_frame_bytes"] = _answer_close
+    elif ending == "kbd-in-close":
+        # the server closes with a code; the application's on_close callback itself is interrupted (KeyboardInterrupt)
+        code = sx.sym_int("code" + tag, 16)
+        sx.assume(sx.And(code >= 3000, code <= 4999))
+        script.append((1, close_frame(code)))
+        raise_in, raise_exc = ("on_close", 0), KeyboardInterrupt()
+        exp_args, exp_err = (code, ""), None
     elif ending == "kbd-in-message":
         script.append((1, server_frame(1, 2, b"m")))
         script.append((1, "EOF"))
@@ -126,7 +133,13 @@ def _check_run(run, exp_args, exp_err, what):
     ncl = names.count("on_close")
     sx.require(ncl == 1, "on_close is called exactly once", got=ncl, what=what)
     if ncl:
-        sx.require(names[-1] == "on_close", "on_close is the last callback", what=what, last=names[-1])
+        if what == "kbd-in-close":
+            # the interrupt raised BY on_close is reported (on_error) after it - it cannot come before; nothing else may follow
+            tail = names[names.index("on_close") + 1:]
+            sx.require(all(n == "on_error" for n in tail) and len(tail) <= 1, "after on_close only the report of on_close's own failure may follow",
+                       what=what, tail=str(tail))
+        else:
+            sx.require(names[-1] == "on_close", "on_close is the last callback", what=what, last=names[-1])
         got = run.of("on_close")[0][2]
         sx.require(sx.And(_eq(got[0], exp_args[0]), _eq(got[1], exp_args[1])),
                    "on_close receives the status code and reason of the server's close frame (None, None otherwise)", what=what)
